@@ -109,7 +109,11 @@ func (ingressEngine) Gen(r *rand.Rand, idx int, tier string) any {
 		ing.Annotations = map[string]string{}
 		for _, kv := range [][2]string{{"kubernetes.io/ingress.class", "nginx"}, {"nginx.ingress.kubernetes.io/rewrite-target", "/"},
 			{"mse.ingress.kubernetes.io/service-subset", "base"}, {"nginx.ingress.kubernetes.io/canary-weight", "7"},
-			{"alb.ingress.kubernetes.io/order", "9"}, {"example.com/team", "a"}} {
+			{"alb.ingress.kubernetes.io/order", "9"}, {"example.com/team", "a"},
+			// annotations of the stable Ingress that name its backend, or look like keys the class scripts manage
+			{"alb.ingress.kubernetes.io/backend-svcs-protocols", `{"svc":"grpc"}`}, {"nginx.ingress.kubernetes.io/backend-protocol", "GRPC"},
+			{"alb.ingress.kubernetes.io/conditions.svc", `[{"type":"Header"}]`}, {"nginx.ingress.kubernetes.io/canary-by-header", "stale"},
+			{"mse.ingress.kubernetes.io/request-header-control-update", "x-old v9"}} {
 			if chance(r, 35) {
 				ing.Annotations[kv[0]] = kv[1]
 			}
